@@ -34,6 +34,19 @@ def replay(prop, path):
                 print("the object's own getters now report something else than when the violation was recorded; comparing the "
                       "re-observed pack() with the recorded expectation is not meaningful - re-run the check")
                 out = r["expected"]
+        elif isinstance(e.get("a"), dict) and e["a"].get("zone"):
+            # an operation observed in a process of another time zone: run it there again
+            import subprocess
+            code = ("import os, sys, json, time\nos.environ['TZ'] = sys.argv[1]; time.tzset()\n"
+                    "from vp.core import import_repo; import_repo()\nfrom vp.ops import perform\n"
+                    "e = json.loads(sys.stdin.read())\nprint(json.dumps(perform(e['op'], e['a'])))\n")
+            env = dict(os.environ)
+            env["PYTHONPATH"] = os.path.dirname(os.path.dirname(os.path.abspath(__file__)))
+            pr = subprocess.run([sys.executable, "-c", code, e["a"]["zone"]], input=json.dumps(e), capture_output=True, text=True, env=env)
+            try:
+                out = json.loads(pr.stdout.strip().splitlines()[-1])
+            except Exception:  # noqa
+                out = {"exc": "UNDOC:process-in-zone-" + e["a"]["zone"]}
         elif "test" in e:                   # a call made by one of the repository's own tests: run them again, recorded
             from . import repotests
             out = repotests.reobserve(e)
